@@ -63,6 +63,10 @@ class LoopSpec:
         self.step = compile_expr(spec["step"]) if "step" in spec else None
         self.exit = compile_expr(spec["exit"]) if "exit" in spec else None
         self.stream_result = spec.get("stream_result")   # callable(ex, st, stream) -> value of reading it
+        self.same = compile_expr(spec["same"]) if "same" in spec else None     # token leaves the text unchanged
+        self.sync = compile_expr(spec["sync"]) if "sync" in spec else None     # pointer is in step with the code
+        self.fields = spec.get("fields", {})        # object name -> {field: kind} havocked at the loop head
+        self.writer = spec.get("writer")            # name of the writer object emissions go through
 
     def _eval(self, ex, st, tree):
         g = st.env.get("__globals__")
@@ -84,43 +88,125 @@ class LoopSpec:
     def invariant(self, ex, st):
         return ex.truth(st, self._eval(ex, st, self.tree))
 
-    def emit(self, ex, st, stream, items, node):
-        """one emission into a stream: must be exactly the unit the specification's step
-        function produces at the ghost pointer, which then advances"""
-        from .engine import Raised
-        if self.step is None:
-            raise Unsupported("stream without a step specification")
-        g = st.env.get("__globals__")
-        saved_env = st.env
-        env = dict(st.env)
+    def _frame(self, st):
+        """the frame of the function that contains the loop (emissions happen in callees)"""
+        import ast as _ast
+        need = {n.id for n in _ast.walk(self.step) if isinstance(n, _ast.Name) and not n.id.startswith("G_")} \
+            if self.step is not None else set()
+        env = st.env
+        while env is not None:
+            g = env.get("__globals__", {})
+            if all((n in env) or (n in g) or (self.modsrc is not None and n in self.modsrc.mod.__dict__)
+                   or hasattr(__import__("builtins"), n) for n in need):
+                if any(n in env for n in need) or not need:
+                    return env
+            env = env.get("__caller_env__")
+        return st.env
+
+    def _with_env(self, st, extra=None):
+        base = self._frame(st)
+        g = base.get("__globals__")
+        env = dict(base)
         if self.modsrc is not None:
             d = dict(g or {})
             d.update(self.modsrc.mod.__dict__)
             env["__globals__"] = d
         for k, v in st.ghost.items():
             env["G_" + k] = v
-        st.env = env
+        if extra:
+            env.update(extra)
+        return env
+
+    def _token_done(self, ex, s2, unit, consumed, saved_env):
+        """ghost update when the last part of a unit has been emitted (or an empty unit skipped)"""
+        s2.ghost = dict(s2.ghost)
+        if self.same is not None and "same" in s2.ghost:
+            env = self._with_env(s2, {"UNIT": unit, "CONSUMED": consumed})
+            keep = s2.env
+            s2.env = env
+            try:
+                v, _ = ex.eval1(self.same, s2)
+            finally:
+                s2.env = keep
+            s2.ghost["same"] = VBool(z3.And(s2.ghost["same"].t, ex.truth(s2, v)))
+        s2.ghost["p"] = VInt(V.name_term(s2.ctx, s2.ghost["p"].t + consumed.t, "p"))
+        if "k" in s2.ghost:
+            s2.ghost["k"] = VInt(0)
+
+    def emit(self, ex, st, stream, items, node):
+        """one emission into a stream: it must be the next part of the unit that the
+        specification's step function produces at the ghost pointer; when the unit is complete the
+        pointer advances"""
+        from .engine import Raised
+        if self.step is None:
+            raise Unsupported("stream without a step specification")
+        k = st.ghost["k"].conc() if "k" in st.ghost else 0
+        if k is None:
+            raise Unsupported("symbolic offset inside a unit")
+        items = [VInt(ex.char_code(x)) if isinstance(x, VStr) else x for x in items]
+        saved_env = st.env
+        st.env = self._with_env(st)
         depth = len(st.handled)
         st.handled.append((BaseException,))
         try:
-            outs = []
             for v, s2 in ex.eval(self.step, st):
-                outs.append((v, s2))
                 del s2.handled[depth:]
                 s2.env = saved_env if s2 is st else _strip_ghost_env(s2.env, saved_env)
                 if isinstance(v, Raised):
                     ex.oblige(s2, f"emit:{stream.name}:specification-step-raises", "emit", z3.BoolVal(False), node)
                     continue
                 unit, consumed = v.items
-                if len(unit.items) != len(items):
-                    ex.oblige(s2, f"emit:{stream.name}:unit-length({len(items)} emitted, {len(unit.items)} specified)",
+                m = len(items)
+                if k + m > len(unit.items):
+                    ex.oblige(s2, f"emit:{stream.name}:{k}+{m} characters emitted for a unit of {len(unit.items)}",
                               "emit", z3.BoolVal(False), node)
+                    s2.ghost = dict(s2.ghost)
+                    s2.ghost["p"] = VInt(V.name_term(s2.ctx, s2.ghost["p"].t + consumed.t, "p"))
+                    yield s2
+                    continue
+                goal = z3.And([ex.equal(s2, a, b) for a, b in zip(items, unit.items[k:k + m])] + [z3.BoolVal(True)])
+                ex.oblige(s2, f"emit:{stream.name}==spec-unit[{k}:{k + m}]", "emit", goal, node)
+                s2.ctx.assume(goal)
+                if k + m == len(unit.items):
+                    self._token_done(ex, s2, unit, consumed, saved_env)
                 else:
-                    goal = z3.And([ex.equal(s2, a, b) for a, b in zip(items, unit.items)] + [z3.BoolVal(True)])
-                    ex.oblige(s2, f"emit:{stream.name}==spec-unit", "emit", goal, node)
-                    s2.ctx.assume(goal)
-                s2.ghost = dict(s2.ghost)
-                s2.ghost["p"] = VInt(V.name_term(s2.ctx, s2.ghost["p"].t + consumed.t, "p"))
+                    s2.ghost = dict(s2.ghost)
+                    s2.ghost["k"] = VInt(k + m)
+                yield s2
+        finally:
+            st.env = saved_env
+            del st.handled[depth:]
+
+    def settle(self, ex, st, cond_src):
+        """at the end of an iteration: tokens whose unit is empty (a dropped character) are
+        consumed without any emission; the pointer must still advance over them"""
+        if self.step is None or self.sync is None:
+            yield st
+            return
+        saved_env = st.env
+        st.env = self._with_env(st)
+        try:
+            v, _ = ex.eval1(self.sync, st)
+        finally:
+            st.env = saved_env
+        synced = ex.truth(st, v)
+        if ex.sol.check(z3.Not(synced), timeout_ms=1000) == z3.unsat:
+            yield st
+            return
+        from .engine import Raised
+        st.env = self._with_env(st)
+        depth = len(st.handled)
+        st.handled.append((BaseException,))
+        try:
+            for v, s2 in ex.eval(self.step, st):
+                del s2.handled[depth:]
+                s2.env = saved_env if s2 is st else _strip_ghost_env(s2.env, saved_env)
+                if isinstance(v, Raised):
+                    yield s2
+                    continue
+                unit, consumed = v.items
+                if len(unit.items) == 0:
+                    self._token_done(ex, s2, unit, consumed, saved_env)
                 yield s2
         finally:
             st.env = saved_env
@@ -161,7 +247,7 @@ class Contract:
     def __init__(self, qual, params, spec=None, requires=None, raises=(), loops=None, props=(),
                  lift=None, note="", abstract=None, result_type=None, search=None, cuts=(),
                  opaque=False, shape=None, ensures=None, transparent=(), assumed=False, memo_transparent=(),
-                 on_apply=None, shards=1, native_spec=None, spec_module=None):
+                 on_apply=None, shards=1, native_spec=None, spec_module=None, post=None, call_inline=False):
         self.qual = qual              # "yarl._parse:split_netloc"
         self.params = params          # list[(name, type)]
         self.spec = spec              # native function object defined in a contracts module
@@ -185,6 +271,8 @@ class Contract:
         self.shards = shards          # the paths of the real function are distributed over this many tasks
         self.native_spec = native_spec   # executable oracle for replays when `spec` cannot be run symbolically
         self.spec_module = spec_module   # module whose names loop contracts may use when spec is None
+        self.post = post              # boolean expression over the locals, ghosts (G_*) and `result` at every return
+        self.call_inline = call_inline   # callers execute the body (the function's effect is on its argument's memo)
 
     # --- use at a call site: the callee is its specification -----------------
     def apply(self, ex, st, args, kwargs, node, f):
@@ -336,6 +424,8 @@ def make_param(ctx, name, ty):
         return [("URL", ("url", name))]
     if ty == BYTES:
         return [("bytes", ("bytes", name))]
+    if isinstance(ty, tuple) and ty and ty[0] in ("pydata", "writer"):
+        return [(ty[0], (ty[0], ty[1] if len(ty) > 1 else name))]
     if isinstance(ty, tuple) and ty[0] == "const":
         return [(repr(c), ("const", c)) for c in ty[1]]
     raise ValueError(ty)
@@ -355,6 +445,11 @@ def instantiate_param(ex, ctx, desc):
         return VBool(z3.Bool(name))
     if kind == "const":
         return ex.wrap(name)
+    if kind == "writer":
+        return V.VObj("Writer", {"buf": VConst("BUFFER"), "size": VInt(8192), "pos": VInt(0), "changed": VInt(0)},
+                      fresh=False)
+    if kind == "pydata":
+        return ("pydata-ref", name)
     if kind == "url":
         fields = {"_" + p: V.sym_str(ctx, f"{name}_{p}") for p in URL_PARTS}
         obj = V.VObj("URL", fields, fresh=False)
@@ -620,6 +715,13 @@ def verify_contract(contract, registry, combo_filter=None, timeout_ms=10000, rou
             st = St(ex)
             st.handled = [tuple(contract.raises)]
             args = [instantiate_param(ex, st.ctx, d) for _, d in combo]
+            for i, a in enumerate(args):
+                if isinstance(a, tuple) and a and a[0] == "pydata-ref":
+                    ref = [j for j, (n, _) in enumerate(contract.params) if n == a[1]][0]
+                    args[i] = V.VObj("PyData", {"str": args[ref]}, fresh=False)
+            if modname.endswith("_pyx"):
+                from . import cmodel
+                cmodel.install(ex, ms.mod)
             fn = UserFn(ms, node, qual)
             sp = UserFn(spec_ms, spec_node, contract.spec.__qualname__) if contract.spec else None
             sargs = [to_spec_arg(x) for x in args]
@@ -684,6 +786,22 @@ def verify_contract(contract, registry, combo_filter=None, timeout_ms=10000, rou
                       res["paths"] += 1
                       if res["paths"] > ex.max_paths:
                           raise Unsupported("path budget exceeded")
+                      if contract.post is not None and flow in ("return", "next"):
+                          env = dict(s2.env)
+                          g = dict(env.get("__globals__", {}))
+                          if spec_ms is not None:
+                              g.update(spec_ms.mod.__dict__)
+                          env["__globals__"] = g
+                          for gk, gv in s2.ghost.items():
+                              env["G_" + gk] = gv
+                          env["result"] = val if (flow == "return" and val is not None) else NONE
+                          keep = s2.env
+                          s2.env = env
+                          try:
+                              pv, _ = ex.eval1(compile_expr(contract.post), s2)
+                          finally:
+                              s2.env = keep
+                          ex.oblige(s2, f"post:{contract.post}[{label}|path{pi}]", "post", ex.truth(s2, pv), None, {})
                       if sp is None:
                           continue
                       cenv = dict(s2.env)
